@@ -46,6 +46,7 @@ struct St {
     pos: usize,
     rng: u64,
     rand_fallback: bool,
+    fine: bool, // releasing a mutex is a scheduling point too (others run while it is still held)
     owner: HashMap<usize, usize>,
     trace: Vec<String>,
     steps: usize,
@@ -171,6 +172,7 @@ impl Sched {
                 pos: 0,
                 rng: 1,
                 rand_fallback: false,
+                fine: false,
                 owner: HashMap::new(),
                 trace: vec![],
                 steps: 0,
@@ -316,6 +318,11 @@ impl Probe for Sched {
         free
     }
     fn mutex_unlock(&self, id: usize) {
+        let fine = self.st.lock().unwrap().fine;
+        if fine {
+            // the mutex is still held while the others get a turn: a try_lock made now fails
+            self.yield_want(Want::Step);
+        }
         let me = Self::me();
         let mut st = self.st.lock().unwrap();
         st.owner.remove(&id);
@@ -482,6 +489,7 @@ fn worker_script(sched: &Arc<Sched>, sh: &Arc<Shared>, ops: &[Value]) {
             "isclosed" => {
                 let ch = sh.channel.lock().unwrap().clone();
                 if let Some(ch) = ch {
+                    sched.hi(r#""e":"isclosed_begin""#.to_string());
                     let r = ch.is_closed();
                     sched.hi(format!(r#""e":"isclosed","res":{}"#, r));
                 }
@@ -705,6 +713,7 @@ fn run_case(sched: &Arc<Sched>, case: &Value, idx: usize) {
         st.pos = 0;
         st.rng = case["seed"].as_u64().unwrap_or(1).wrapping_mul(0x9E3779B97F4A7C15) | 1;
         st.rand_fallback = case["fallback"].as_str() == Some("rand");
+        st.fine = case["fine"].as_bool().unwrap_or(false);
         st.pct = case["fallback"].as_str() == Some("pct");
         st.prio.clear();
         st.picks = 0;
